@@ -1,4 +1,5 @@
 import WfModel.Model.Parse
+import WfModel.Lemmas.Unary
 /-!
 # C13 — the level functions read the settings only through `starLimit`
 
@@ -40,10 +41,12 @@ theorem comparisonL_congr : comparisonL E1 = comparisonL E2 := by
   unfold comparisonL
   simp only [indexExprL_congr s l d1 d2, cmpWithLhs_congr s l d1 d2]
 
+theorem lexUnary_congr : lexUnary E1 = lexUnary E2 := lexUnary_scheme _ _ rfl
+
 theorem simpleL_congr : simpleL E1 = simpleL E2 := by
   funext lo i
   unfold simpleL
-  simp only [comparisonL_congr s l d1 d2]
+  simp only [comparisonL_congr s l d1 d2, lexUnary_congr s l d1 d2]
 
 theorem logicalL_congr : logicalL E1 = logicalL E2 := by
   funext lo i
@@ -64,7 +67,7 @@ theorem argL_congr : argL E1 = argL E2 := by
   funext lo i
   unfold argL
   simp only [indexExprL_congr s l d1 d2, argAfterIndex_congr s l d1 d2,
-    argFallback_congr s l d1 d2, logicalL_congr s l d1 d2]
+    argFallback_congr s l d1 d2, logicalL_congr s l d1 d2, lexUnary_congr s l d1 d2]
 
 theorem callArgsLoop_congr (lo : Option Level) (sig : FuncSig) (f : Nat) :
     callArgsLoop E1 lo sig f = callArgsLoop E2 lo sig f := by
